@@ -217,8 +217,11 @@ func (w *worker) run(name string) (res *HarnessResult) {
 	}()
 	initFn := w.target.Func("init")
 	e.Run(fn, func(st *State) {
-		for _, sp := range w.spkgs {
-			if sp != nil && sp != w.target && e.targets[sp.Pkg.Path()] {
+		// package initialisers of the other packages under test (dependencies of the harness package), in the
+		// order listed; an initialiser reached twice is stopped by its init$guard
+		for _, t := range spec.Targets {
+			sp := w.prog.ImportedPackage(t)
+			if sp != nil && sp != w.target {
 				if f := sp.Func("init"); f != nil {
 					e.pushFrame(st, f, nil, nil, nil)
 					e.runPathInit(st)
